@@ -153,6 +153,48 @@ def thorough_passes(ctx, module):
     ctx.obs = base_obs
 
 
+def second_chance(ctx, module, prop):
+    """Obligations that failed are re-decided with the private helper functions of the analysed function's file interpreted in place
+    (engine.ai.INLINE_PRIVATE_HELPERS).  Interpreting a callee instead of treating it as opaque preserves semantics, so an obligation that
+    holds in this mode holds; a genuine violation fails in both modes.  This makes the verdict independent of whether a few lines live
+    in the function itself or in a private helper next to it."""
+    from . import ai as AIM
+    known = load_known()
+    failed = [o for o in ctx.obs if not o.ok and (prop, o.key) not in known and not o.key.startswith("[")]
+    if not failed:
+        return
+    sub = Ctx.__new__(Ctx)
+    sub.__dict__.update(ctx.__dict__)
+    sub.obs = []
+    sub.analysed = {}
+    sub.assumptions = []
+    AIM.INLINE_PRIVATE_HELPERS = True
+    try:
+        module.run(sub)
+    except Exception:
+        return
+    finally:
+        AIM.INLINE_PRIVATE_HELPERS = False
+    second = {}
+    for o in sub.obs:
+        second.setdefault(o.key, o)
+    n = 0
+    failing2 = [k for k, x in second.items() if not x.ok]
+    for o in failed:
+        o2 = second.get(o.key)
+        if o2 is None:
+            # rules that key a failure by its message (`<rule>:<function>:<what went wrong>`) report the passing case under the shorter key
+            # `<rule>:<function>`: take that one, provided nothing under it fails in the second run
+            cands = [x for k, x in second.items() if x.ok and o.key.startswith(k + ":") and not any(fk.startswith(k) for fk in failing2)]
+            o2 = max(cands, key=lambda x: len(x.key)) if cands else None
+        if o2 is not None and o2.ok:
+            o.ok = True
+            o.detail = "(re-decided with private helpers interpreted in place) " + o2.detail
+            n += 1
+    if n:
+        ctx.note_analysed("second_chance", "%d of %d failed obligations discharged with private helpers inlined" % (n, len(failed)))
+
+
 def run_check(prop, tier, module, level, explanation, checker_cmd):
     t0 = time.time()
     seed = int(os.environ.get("VERIF_SEED", "0") or 0)
@@ -164,6 +206,7 @@ def run_check(prop, tier, module, level, explanation, checker_cmd):
         module.run(ctx)
         if tier == "thorough":
             thorough_passes(ctx, module)
+        second_chance(ctx, module, prop)
     except SystemExit:
         raise
     except Exception:
